@@ -2,6 +2,7 @@
 package sim
 
 import (
+	"crypto/sha256"
 	"encoding/hex"
 	"encoding/json"
 	"fmt"
@@ -120,7 +121,21 @@ type BlockRec struct {
 }
 
 func (c *Chain) Header() tmproto.Header {
-	return tmproto.Header{ChainID: ChainID, Height: c.Height, Time: c.Time}
+	return tmproto.Header{ChainID: ChainID, Height: c.Height, Time: c.Time, LastBlockId: LastBlockID(c.Height)}
+}
+
+// BlockHashOf is the hash the harness's consensus gives block h (a real chain's would be the header hash).
+func BlockHashOf(h int64) []byte {
+	x := sha256.Sum256([]byte(fmt.Sprintf("verif-block-%d", h)))
+	return x[:]
+}
+
+// LastBlockID is what the header of block h says about block h-1.
+func LastBlockID(h int64) tmproto.BlockID {
+	if h <= 1 {
+		return tmproto.BlockID{}
+	}
+	return tmproto.BlockID{Hash: BlockHashOf(h - 1)}
 }
 
 // Ctx returns a context over the state being built by the current block
